@@ -27,6 +27,10 @@ class G:
             if self.rich and r.random() < .15:
                 v = r.choice([0x10, 0xff, 0xABC, 0x7fffffff])
                 return ('int', hex(v), v)
+            if self.rich and r.random() < .1:
+                # digit separators, decimal and hexadecimal
+                text = r.choice(['1_000', '1_0', '12_345', '0x1_0', '0xf_f', '1_6'])
+                return ('int', text, int(text, 0))
             if self.rich and r.random() < .08:
                 v = r.choice([2 ** 53 + 1, 2 ** 64, 10 ** 20 + 7, 9007199254740993])
                 return ('int', str(v), v)
